@@ -27,7 +27,7 @@ RULE = (
     "A case is non-trivial when the harness-side reference trajectory is finite, its round-off amplification "
     "(probe) is below the guard, and the position moves by more than 1e-6 (for 'energy': additionally the "
     "reference energy errors are in the asymptotic window; for 'volume': the finite-difference error bound is "
-    "below 1e-7). distinct = (sub-check, target structure, sizes, mass kind, L, rounded step size and start)."
+    "below 1e-7). distinct = (sub-check, the complete generated case)."
 )
 ASSUMPTIONS = [
     "reference = textbook leapfrog in numpy; gradients of Normal / gamma(exp) / MVN targets are closed forms; for "
@@ -37,6 +37,10 @@ ASSUMPTIONS = [
     "relative perturbation 1e-9 injected at every gradient and position update) is amplified by less than 1e3; "
     "cases beyond that (unstable step size for the target's curvature) are counted but nothing is asserted, "
     "because the property holds there only 'up to round-off' that is amplified without bound",
+    "guard (targets): positions of gamma blocks stay within |x| <= 500 and phylogenetic positions within 50 "
+    "(exp(x) representable), and HKY trajectories stay 1e-2 away from kappa = 1 / pi_A+pi_G = 1/2 where the rate "
+    "matrix has a repeated eigenvalue and the eigendecomposition-based gradient is 0/0 (DESIGN 8 #21, a finding of "
+    "C12/C19, not of the integrator)",
     "tolerances are relative to the trajectory scale S = max(1, |q|, |p|, eps*|grad|) along the reference: "
     "differential 1e-10*S, reversal 1e-9*L*S, determinant 1e-6 when the Richardson error bound of the central-"
     "difference Jacobian (steps 2.5e-4 and 1.25e-4 times max(1,|z_i|)) propagated through the inverse is < 1e-7",
@@ -288,6 +292,21 @@ class Oracle:
         except Exception:  # noqa
             return float("nan"), np.full(len(q), np.nan)
 
+    def representable(self, traj):
+        """gamma blocks are written as z = exp(x): outside |x| <= 500 z under/overflows and the density
+        of the specification (not the integrator) stops being the smooth function the property is about"""
+        c = self.c
+        if c["target"] == "phylo":
+            return all(float(np.max(np.abs(q))) <= 50.0 for q, _ in traj)
+        s = 0
+        for b, n in zip(c["blocks"], [b["n"] for b in c["blocks"]]):
+            if b["kind"] == "gamma":
+                for q, _ in traj:
+                    if float(np.max(np.abs(q[s : s + n]))) > 500.0:
+                        return False
+            s += n
+        return True
+
     def margin(self, traj):
         """distance of the trajectory from the locus where HKY's rate matrix has a repeated eigenvalue
         (kappa = 1, or pi_A + pi_G = 1/2): there the eigendecomposition-based gradient is 0/0 (DESIGN 8 #21),
@@ -328,15 +347,17 @@ def run_impl(b, integ, q, p, minv_t):
 def _base(c, sub):
     d = sum(c["sizes"])
     blocks = tuple(b["kind"] for b in c.get("blocks", [])) if c["target"] != "phylo" else (c["model"],)
-    tags = {"target": c["target"], "mass": c["mass"]["kind"], "npar": len(c["sizes"]), "cls": c["target"] + "/" + c["mass"]["kind"]}
-    key = (sub, c["target"], blocks, c["sizes"], c["mass"]["kind"], c["L"], round(c["eps"], 6), [round(x, 4) for x in c["q0"]])
+    tags = pretags(c)
+    key = (sub, c)  # the whole generated case: two cases are the same only if every drawn number is
     labels = ["target=" + c["target"], "mass=" + c["mass"]["kind"], "npar=%d" % len(c["sizes"]), "dim=%d" % d, "L<=5" if c["L"] <= 5 else ("L<=15" if c["L"] <= 15 else "L>15"), "eps<0.01" if c["eps"] < 0.01 else ("eps<0.1" if c["eps"] < 0.1 else "eps>=0.1")]
     labels += ["block=" + k for k in sorted(set(blocks))]
     return Res(nontrivial=False, key=key, labels=tuple(labels), tags=tags)
 
 
 def pretags(c):
-    return {"target": c["target"], "mass": c["mass"]["kind"], "npar": len(c["sizes"]), "cls": c["target"] + "/" + c["mass"]["kind"]}
+    # one bucket per (sub-check, target family, kind of failure); mass matrix kind and number of parameters
+    # are tags (known-finding predicates can use them) but do not multiply the buckets
+    return {"target": c["target"], "mass": c["mass"]["kind"], "npar": len(c["sizes"]), "cls": c["target"], "bucket": c["target"]}
 
 
 def _lab(res, *labs):
@@ -348,6 +369,8 @@ def _reference(c, orc, q0, p0, eps, L, minv):
     ref = lf.leapfrog(q0, p0, eps, L, minv, orc.grad)
     if not ref["finite"]:
         return ref, float("inf"), "guard:unstable"
+    if not orc.representable(ref["traj"]):
+        return ref, float("inf"), "guard:outside_float_range"
     if not orc.margin(ref["traj"]) >= 1e-2:
         return ref, float("inf"), "guard:degenerate_eigenvalues"
     if not ref["scale"] <= SCALE_MAX:
@@ -664,8 +687,9 @@ def body_operator(c):
             _lab(res, "retried")
         p0, p1 = att[-1]
         ref, amp, why = _reference(c, orc, q_cur, p0, eps, L, minv)
-        if p1 is None or not math.isfinite(hv):
-            # every attempt failed: the position must be exactly the one before the step
+        if hv == float("inf"):
+            # K0 - K1 cannot be +inf: this is the operator's signal that every attempt failed numerically;
+            # MCMC.run accepts on +inf, so the position must be exactly the one before the step
             if why is None:
                 return res.fail("retries", {"draws": len(att), "returned": hv, "abandoned_momentum": p0.tolist()})
             qb = b.get_q()
@@ -680,6 +704,8 @@ def body_operator(c):
             # outside the guarded region nothing is asserted about the numbers
             _lab(res, why)
             return res
+        if p1 is None:
+            return res.fail("retries", {"draws": len(att), "returned": hv})
         S = ref["scale"]
         q1 = b.get_q()
         if q1 is None:
@@ -721,8 +747,11 @@ def ham_cases(draw):
     c = draw(cases(targets=("block", "block", "mvn", "phylo"), max_L=1, phylo_max_L=1))
     d = sum(c["sizes"])
     queries = []
-    for i in range(draw(st.sampled_from([2, 3, 4]))):
-        q = {"move": True if i == 0 else draw(st.booleans()), "kw": draw(st.sampled_from(["inverse_mass_matrix", "mass_matrix"]))}
+    repeat = draw(st.booleans())  # whether some query is made at the position of the previous one
+    n = draw(st.sampled_from([2, 3, 4]))
+    stay = draw(st.sampled_from(range(1, n))) if repeat else -1
+    for i in range(n):
+        q = {"move": i == 0 or (i != stay and (not repeat or draw(st.booleans()))), "kw": draw(st.sampled_from(["inverse_mass_matrix", "mass_matrix"]))}
         q["p"] = [draw(fl(-3.0, 3.0)) for _ in range(d)]
         q["dq"] = [draw(fl(0.05, 0.5)) for _ in range(d)] if q["move"] else None
         queries.append(q)
@@ -741,6 +770,7 @@ def body_hamiltonian(c):
     position held by the parameters and the momentum passed, whatever was asked before"""
     res = _base(c, "hamiltonian")
     res.tags = ham_pretags(c)
+    res.tags["bucket"] = "Hamiltonian.__call__"
     orc = Oracle(c)
     M = mass_np(c)
     minv = lf.invert_mass(M)
@@ -822,15 +852,19 @@ def selftest():
 # ----------------------------------------------------------------------------- registration
 def subchecks(tier):
     toy = ("block", "block", "mvn")
+    ph = ("phylo",)
+    q = tier == "quick"  # the two expensive sub-checks use shorter trajectories in the quick tier
     return [
-        Sub("differential", body_differential, strategy=lambda: cases(targets=toy), quick=500, thorough=20000, pretags=pretags),
-        Sub("differential_phylo", body_differential, strategy=lambda: cases(targets=("phylo",), phylo_max_L=30), quick=40, thorough=800, pretags=pretags),
-        Sub("reversal", body_reversal, strategy=lambda: cases(targets=toy), quick=500, thorough=20000, pretags=pretags),
-        Sub("reversal_phylo", body_reversal, strategy=lambda: cases(targets=("phylo",), phylo_max_L=30), quick=30, thorough=600, pretags=pretags),
-        Sub("volume", body_volume, strategy=lambda: cases(targets=toy), quick=150, thorough=5000, pretags=pretags),
-        Sub("volume_phylo", body_volume, strategy=lambda: cases(targets=("phylo",), phylo_max_L=4), quick=8, thorough=160, pretags=pretags),
-        Sub("energy", body_energy, strategy=lambda: cases(targets=toy), quick=400, thorough=15000, pretags=pretags),
-        Sub("energy_phylo", body_energy, strategy=lambda: cases(targets=("phylo",), phylo_max_L=10), quick=16, thorough=320, pretags=pretags),
-        Sub("operator", body_operator, strategy=lambda: cases(targets=toy, operator=True), quick=500, thorough=20000, pretags=pretags),
-        Sub("operator_phylo", body_operator, strategy=lambda: cases(targets=("phylo",), phylo_max_L=20, operator=True), quick=30, thorough=600, pretags=pretags),
+        Sub("differential", body_differential, strategy=lambda: cases(targets=toy), quick=400, thorough=20000, pretags=pretags),
+        Sub("differential_phylo", body_differential, strategy=lambda: cases(targets=ph, phylo_max_L=30), quick=32, thorough=800, pretags=pretags),
+        Sub("reversal", body_reversal, strategy=lambda: cases(targets=toy), quick=400, thorough=20000, pretags=pretags),
+        Sub("reversal_phylo", body_reversal, strategy=lambda: cases(targets=ph, phylo_max_L=30), quick=24, thorough=600, pretags=pretags),
+        Sub("volume", body_volume, strategy=lambda: cases(targets=toy, max_L=12 if q else 30), quick=60, thorough=5000, pretags=pretags),
+        Sub("volume_phylo", body_volume, strategy=lambda: cases(targets=ph, phylo_max_L=4), quick=8, thorough=160, pretags=pretags),
+        Sub("energy", body_energy, strategy=lambda: cases(targets=toy, eps_lo=4e-3, max_L=16 if q else 30), quick=200, thorough=15000, pretags=pretags),
+        Sub("energy_phylo", body_energy, strategy=lambda: cases(targets=ph, phylo_max_L=10, eps_lo=4e-3), quick=16, thorough=320, pretags=pretags),
+        Sub("operator", body_operator, strategy=lambda: cases(targets=toy, operator=True), quick=400, thorough=20000, pretags=pretags),
+        Sub("operator_phylo", body_operator, strategy=lambda: cases(targets=ph, phylo_max_L=20, operator=True), quick=24, thorough=600, pretags=pretags),
+        Sub("operator_failure", body_operator, strategy=lambda: cases(targets=("block",), operator=True, harsh=True, eps_lo=0.1), quick=60, thorough=3000, pretags=pretags),
+        Sub("hamiltonian", body_hamiltonian, strategy=ham_cases, quick=200, thorough=8000, pretags=ham_pretags),
     ]
